@@ -294,6 +294,17 @@ sts_atmost_via_source(Source *source, Sink *sink, const size_t n)
     return (rc <= 0) ? rc : sink_put_chunk(sink, buf, rc);
 }
 
+static bool
+sink_offers_room(Sink *sink)
+{
+    if (sink->ext.getbuffer == NULL) {
+        return false;
+    }
+
+    ByteBuffer b = sink->ext.getbuffer(sink);
+    return (byte_buffer_rest(&b) > 0);
+}
+
 ssize_t
 sts_atmost(Source *source, Sink *sink, size_t n)
 {
@@ -302,8 +313,14 @@ sts_atmost(Source *source, Sink *sink, size_t n)
          * with exposable buffers is preferable. */
         return sts_cbc(source, sink);
     }
-    const ssize_t sinkrc = sts_atmost_via_sink(source, sink, n);
-    return (sinkrc >= 0) ? sinkrc : sts_atmost_via_source(source, sink, n);
+    /* The source's buffer is the way to go when the sink has no room to
+     * offer. It is not a second attempt after the first one failed: What a
+     * driver answered while the sink's buffer was being filled (a hard error,
+     * -EINTR, -EAGAIN) is the result of this step. */
+    if (sink_offers_room(sink)) {
+        return sts_atmost_via_sink(source, sink, n);
+    }
+    return sts_atmost_via_source(source, sink, n);
 }
 
 ssize_t
